@@ -256,6 +256,9 @@ def run_check(modname, argv):
             errors.append({"error": "analyse: " + traceback.format_exc(), "task": None})
 
     if args.digest_only:
+        if os.environ.get("CDDSIM_DUMP_DIGESTS"):
+            with open(os.environ["CDDSIM_DUMP_DIGESTS"], "w") as f:
+                json.dump([r.get("digests", []) for r in results], f)
         print("DIGEST %s" % stable_hash([r.get("digests", []) for r in results]))
         print("PLANDIGEST %s" % stable_hash([r.get("plan_digests", []) for r in results]))
         return 0 if not errors else 2
